@@ -65,6 +65,16 @@ def r1(run, db):
         for c in cs:
             run.check(cl.dominates(t, c.site) and not cl.reaches_after(z, c.site) and cl.reaches_after(c.site, z), "between:" + nm,
                       "%s happens after terminate() and before set_status(Stopped)" % nm, "%s is not between terminate() and set_status(Stopped)" % nm, c.where())
+    tgs = cl.calls_to("ActorCell::try_get_supervisor")
+    run.anchor("cleanup try_get_supervisor()", len(tgs), 1, cl.where())
+    if tgs and unlink and armed is not None:
+        te = cl.edge_of(armed, "true")
+        run.check(te and all_paths_from_edge_pass(cl, te, [tgs[0].site]), "armed->try_get_supervisor", "every armed cleanup looks up the current supervisor (with or without an exit event)",
+                  "a cleanup path (e.g. a failed start, which has no event) never looks up / unlinks from the supervisor: the dead actor stays in its supervisor's child set", cl.where())
+        se = nested_variant_edge(cl, tgs[0], ["Some"])
+        run.check(se is not None and all_paths_from_edge_pass(cl, se, [unlink[0].site]), "supervisor->unlink", "whenever a supervisor is set, cleanup unlinks from it", "cleanup can skip unlink although a supervisor is set", unlink[0].where())
+        okarg = any(r["k"] == "call" and r["call"].bb == tgs[0].bb for r in cl.origins(unlink[0].args[1]))
+        run.check(okarg, "unlink-current", "unlink is given the supervisor just read", None, unlink[0].where())
     if notify and unlink:
         run.check(not cl.reaches_after(unlink[0].site, notify[0].site), "notify-before-unlink", "the supervisor is notified before the child unlinks from it",
                   "unlink can precede the supervisor notification (the event would find no supervisor)", cl.where())
